@@ -8,6 +8,26 @@ ROOT = os.path.dirname(os.path.dirname(os.path.abspath(__file__)))
 
 # id -> (category, technique, level text, level note, design ref)
 CHECKS = {
+    'C17': ('exploration',
+            'Hypothesis-generated select/examine/close/reconnect/arrival '
+            'histories for three sessions; invariant over the whole history '
+            'of who was shown \\Recent',
+            'Histories of <= 30 steps in which three sessions SELECT, EXAMINE, '
+            'CLOSE, reselect and reconnect the mailbox in any order while '
+            'messages arrive by APPEND (from a session that has the mailbox '
+            'selected, examined, another mailbox selected or nothing '
+            'selected; with and without \\Recent in the flag list) and by '
+            'COPY, and STORE with \\Recent is tried in five modes; dict and '
+            'maildir. Invariants: per message at most one read-write selection '
+            'ever shows \\Recent; arrivals while no read-write selection '
+            'exists must be shown by the first read-write SELECT; the RECENT '
+            'number equals the number of messages the session sees flagged; '
+            'STORE never moves \\Recent; a final fresh SELECT re-announces '
+            'nothing. Sampled.',
+            'The harness holds connection state only weakly (pymap tracks '
+            'selections in a WeakSet; a strongly held dead selection would '
+            'be a harness artefact).',
+            'DESIGN.md section 3, C17'),
     'C19': ('exploration',
             'Hypothesis-generated ManageSieve programs (names decoded relative '
             'to the model state) against a per-user dictionary model',
